@@ -3,6 +3,7 @@ import Mathlib.Algebra.Module.LinearMap.Basic
 import Mathlib.Algebra.Field.Basic
 import Mathlib.Tactic.Ring
 import Mathlib.Tactic.Linarith
+import Mathlib.Algebra.Order.Ring.Rat
 /-!
 # C10 — deterministic evolution: what every explicit Runge–Kutta step does, for every tableau
 
@@ -141,4 +142,110 @@ theorem rkStep_linear_scalar (tab : Tableau R) (lam t dt y : R) :
   ring
 
 end stab
+/-! ### Butcher's order conditions hold on every rooted tree, not only on the ones that were enumerated -/
+section trees
+
+theorem BTree.order_pos (t : BTree) : 1 ≤ t.order := by
+  induction t with
+  | leaf => simp [BTree.order]
+  | graft a b iha ihb => simp only [BTree.order]; omega
+
+theorem treeTable_length (A : List (List Rat)) (n : Nat) : (treeTable A n).length = n := by
+  induction n with
+  | zero => rfl
+  | succ n ih => simp [treeTable, ih]
+
+theorem treeTable_getD_succ (A : List (List Rat)) (n i : Nat) (h : i < n) :
+    (treeTable A (n + 1)).getD i [] = (treeTable A n).getD i [] := by
+  simp only [treeTable]
+  rw [List.getD_eq_getElem?_getD, List.getD_eq_getElem?_getD, List.getElem?_append_left (by rw [treeTable_length]; exact h)]
+
+theorem treeTable_getD_stable (A : List (List Rat)) (n m i : Nat) (h : i < n) (hm : n ≤ m) :
+    (treeTable A m).getD i [] = (treeTable A n).getD i [] := by
+  induction m with
+  | zero => have : n = 0 := by omega
+            subst this; rfl
+  | succ m ih =>
+    rcases Nat.lt_or_ge m n with h1 | h1
+    · have : n = m + 1 := by omega
+      subst this; rfl
+    · rw [treeTable_getD_succ A m i (by omega), ih h1]
+
+theorem treeTable_last (A : List (List Rat)) (n : Nat) :
+    (treeTable A (n + 1)).getD n [] = (if n = 0 then [WTree.full A .leaf] else []) ++
+      (List.range n).flatMap fun k =>
+        ((treeTable A n).getD k []).flatMap fun a => ((treeTable A n).getD (n - 1 - k) []).map fun b => WTree.graft A a b := by
+  simp only [treeTable]
+  rw [List.getD_eq_getElem?_getD, List.getElem?_append_right (by simp [treeTable_length])]
+  simp [treeTable_length]
+
+theorem WTree.graft_full (A : List (List Rat)) (a b : BTree) :
+    WTree.graft A (WTree.full A a) (WTree.full A b) = WTree.full A (.graft a b) := rfl
+
+/-- **the enumeration is complete**: every rooted tree (every Butcher product term) with at most `n`
+vertices is in the table, with its elementary weights -/
+theorem treeTable_complete (A : List (List Rat)) (t : BTree) :
+    ∀ n, t.order ≤ n → WTree.full A t ∈ (treeTable A n).getD (t.order - 1) [] := by
+  induction t with
+  | leaf =>
+    intro n hn
+    simp only [BTree.order] at hn ⊢
+    rw [treeTable_getD_stable A 1 n 0 (by omega) hn, treeTable_last]
+    simp
+  | graft a b iha ihb =>
+    intro n hn
+    have ha := BTree.order_pos a
+    have hb := BTree.order_pos b
+    simp only [BTree.order] at hn ⊢
+    obtain ⟨N, hN⟩ : ∃ N, a.order + b.order = N + 1 := ⟨a.order + b.order - 1, by omega⟩
+    rw [hN] at hn ⊢
+    rw [Nat.add_sub_cancel, treeTable_getD_stable A (N + 1) n N (by omega) hn, treeTable_last]
+    apply List.mem_append_right
+    rw [List.mem_flatMap]
+    refine ⟨a.order - 1, List.mem_range.mpr (by omega), ?_⟩
+    rw [List.mem_flatMap]
+    refine ⟨WTree.full A a, iha N (by omega), ?_⟩
+    rw [List.mem_map]
+    refine ⟨WTree.full A b, ?_, WTree.graft_full A a b⟩
+    have : N - 1 - (a.order - 1) = b.order - 1 := by omega
+    rw [this]
+    exact ihb N (by omega)
+
+theorem foldl_max_ge {α : Type} (f : α → Rat) (l : List α) :
+    ∀ (acc : Rat), (acc ≤ l.foldl (fun acc w => max acc (f w)) acc) ∧
+      ∀ x ∈ l, f x ≤ l.foldl (fun acc w => max acc (f w)) acc := by
+  induction l with
+  | nil => intro acc; exact ⟨le_refl _, fun x hx => absurd hx List.not_mem_nil⟩
+  | cons y l ih =>
+    intro acc
+    obtain ⟨h1, h2⟩ := ih (max acc (f y))
+    refine ⟨le_trans (le_max_left _ _) h1, ?_⟩
+    intro x hx
+    rcases List.mem_cons.mp hx with rfl | hx
+    · exact le_trans (le_max_right _ _) h1
+    · exact h2 x hx
+
+/-- **order conditions for every rooted tree**: if the per-size defects (decided by the kernel for the
+coefficients in the source, `Qv.Gen.TreeOrder*`) are within `tol` for the sizes `1 … p`, then for *every*
+rooted tree `t` with at most `p` vertices `|Σ_i b_i Φ_i(t) − 1/γ(t)| ≤ tol` — the hypothesis of Butcher's
+theorem that the method has order `p` on non-linear, time-dependent right-hand sides. -/
+theorem order_conditions_all_trees (tab : Tableau Rat) (p : Nat) (tol : Rat)
+    (h : ∀ n, n < p → treeDefectAt tab (n + 1) ≤ tol) (t : BTree) (ht : t.order ≤ p) :
+    treeResidual tab t ≤ tol := by
+  have hpos := BTree.order_pos t
+  obtain ⟨n, hn⟩ : ∃ n, t.order = n + 1 := ⟨t.order - 1, by omega⟩
+  have hmem := treeTable_complete tab.a t (n + 1) (by omega)
+  rw [hn, Nat.add_sub_cancel] at hmem
+  have hb := (foldl_max_ge (wResidual tab) ((treeTable tab.a (n + 1)).getD n []) 0).2 _ hmem
+  have hd := h n (by omega)
+  unfold treeDefectAt at hd
+  rw [Nat.add_sub_cancel] at hd
+  exact le_trans hb hd
+
+/-- non-vacuity: the bushy tree with three vertices `[•, •]` gives the classical condition `Σ b_i c_i² = 1/3` -/
+example : (BTree.graft .leaf (.graft .leaf .leaf)).gamma = 3 := by decide +kernel
+example : (BTree.graft (.graft .leaf .leaf) .leaf).gamma = 6 := by decide +kernel
+
+end trees
+
 end Qv.C10
